@@ -175,7 +175,10 @@ class RefWorld:
                     out[name] = RLeaf(name, f.kind, tr(f.obj), f.unit, f.level)
             return out
 
-        return trf(fields)
+        out = trf(fields)
+        # (the arrays noted for the listed finding follow the transformation, e.g. the sort of a merge)
+        self.served_from_memo = [(memo.get(id(n), n), memo.get(id(o), o)) for n, o in getattr(self, "served_from_memo", [])]
+        return out
 
     # ------------------------------------------------------------------ operations
     def apply(self, op):
@@ -185,6 +188,8 @@ class RefWorld:
         self.converted = set()
         self.pad_refused = False
         self.shared_one_sided = False
+        self.served_from_memo = []   # (array the table demands, array the code's memo hands out instead)
+        self.code_variant = None
         try:
             return "ok", self._apply(op)
         except Expected as e:
@@ -232,13 +237,26 @@ class RefWorld:
         if o == "extend":
             e = self.ds[op["e"]]
             plain = all(f.kind in PLAIN for t in (d, e) for f in self.leaves(t.fields))
+            la, lb = list(self.columns(d.fields, "")), list(self.columns(e.fields, ""))
+
+            def one_sided(x, y):
+                ny = {n for n, _ in y}
+                return any(f.kind not in PLAIN and n not in ny and any(g.obj is f.obj and n2 in ny for n2, g in x) for n, f in x)
+
+            split = one_sided(la, lb) or one_sided(lb, la)
             self.extend(d, e)
+            if self.shared_one_sided:
+                self.memo_variant(d, None)
             if plain:
                 return "x" + "/".join(f"{n}={rows_token(f.obj.rows)}" for n, f in self.columns(d.fields, ""))
-            return "-"
+            return "s1" if split else "s0"
         if o == "merge":
-            for e in op["es"]:
+            for i, e in enumerate(op["es"]):
                 self.extend(d, self.ds[e])
+                if self.shared_one_sided and i < len(op["es"]) - 1:
+                    raise Skip("the listed finding in the middle of a merge of several datasets")
+            if self.shared_one_sided:
+                self.memo_variant(d, op.get("sort_by"))   # (before the sort: the variant sorts on its own key column)
             if op.get("sort_by"):
                 self.sort(d, op["sort_by"])
             return "-"
@@ -275,6 +293,39 @@ class RefWorld:
                                                bool(op.get("co")))
             return "-"
         raise AssertionError(o)
+
+    def memo_variant(self, d, sort_by):
+        """the dataset as the listed finding `…:shared-array-one-name-missing` describes it: a private copy of the reference
+        result in which every array the table demands for the second of two names of one array is replaced by the array
+        made for the first name (and which is then sorted on its own key column)"""
+        import copy
+
+        d_alt, served = copy.deepcopy((d, self.served_from_memo))
+        sub = {id(n): o for n, o in served}
+
+        def fix(o, depth=0):
+            if o is None or depth > 8:
+                return o
+            o = sub.get(id(o), o)
+            o.other = fix(o.other, depth + 1)
+            o.ref_pos = fix(o.ref_pos, depth + 1)
+            return o
+
+        def walk(fields):
+            for f in fields.values():
+                if isinstance(f, RColl):
+                    walk(f.fields)
+                else:
+                    f.obj = fix(f.obj)
+
+        walk(d_alt.fields)
+        if sort_by:
+            keep = self.served_from_memo
+            try:
+                self.sort(d_alt, sort_by)
+            finally:
+                self.served_from_memo = keep
+        self.code_variant = d_alt
 
     def add(self, d, op):
         path = op["path"].split(".")
@@ -348,27 +399,37 @@ class RefWorld:
         partner_a: Dict[int, Any] = {}
         partner_b: Dict[int, Any] = {}
 
-        def pair(a, b, kind, ndim, cols, factors):
+        def pair(a, b, kind, ndim, cols, factors, top=False):
             """the object holding a's rows (or n empties) followed by b's rows (or m empties)"""
             if a is None and b is None:
                 return None
             ident = kind in IDENT_KINDS
             key = (id(a) if a is not None else None, id(b) if b is not None else None)
+            unshared_from = None
             if ident:
                 if key in pairs:
                     return pairs[key]
-                if (a is not None and id(a) in partner_a and partner_a[id(a)] != key[1]) or \
-                   (b is not None and id(b) in partner_b and partner_b[id(b)] != key[0]):
-                    if a is None or b is None or (a is not None and partner_a.get(id(a), 0) is None) or \
-                       (b is not None and partner_b.get(id(b), 0) is None):
-                        # one array under two names, one of the names missing on the other side: the code keeps the
-                        # names one array (served from the memo), so the "missing" name is not padded (listed finding)
-                        self.shared_one_sided = True
-                    raise Skip("the two datasets share objects differently")
-                if a is not None:
-                    partner_a[id(a)] = key[1]
-                if b is not None:
-                    partner_b[id(b)] = key[0]
+                clash_a = a is not None and id(a) in partner_a and partner_a[id(a)] != key[1]
+                clash_b = b is not None and id(b) in partner_b and partner_b[id(b)] != key[0]
+                if clash_a or clash_b:
+                    # one array under two field names, one of the names missing in the other dataset (this field or the
+                    # earlier one is a padding): the table has two columns here - the column the other dataset lacks gets
+                    # empty values, the other one the other dataset's values - so the two names cannot stay one array.
+                    # (The code serves the second name from its memo: listed finding `…:shared-array-one-name-missing`.)
+                    one_sided = (clash_a and (key[1] is None or partner_a[id(a)] is None)) or \
+                                (not clash_a and clash_b and (key[0] is None or partner_b[id(b)] is None))
+                    if not (top and one_sided):
+                        raise Skip("the two datasets share objects differently")
+                    # what the code hands out instead: the array made for the first of the two names (`a` is looked up first)
+                    unshared_from = pairs.get((id(a), partner_a[id(a)])) if clash_a else pairs.get((partner_b[id(b)], id(b)))
+                    if unshared_from is None:
+                        raise Skip("the two datasets share objects differently")
+                    self.shared_one_sided = True
+                else:
+                    if a is not None:
+                        partner_a[id(a)] = key[1]
+                    if b is not None:
+                        partner_b[id(b)] = key[0]
             if a is not None and b is not None and (a.kind != b.kind):
                 raise Expected("value")
             # (after the look-up of the pair: an array that was already extended under another name is not padded again)
@@ -398,6 +459,8 @@ class RefWorld:
             new = RObj(kind, ndim, cols, [list(r) for r in ra] + [list(r) for r in rb], tag=tag)
             if ident:
                 pairs[key] = new
+            if unshared_from is not None:
+                self.served_from_memo.append((new, unshared_from))
             ao = a.other if a is not None else None
             bo = b.other if b is not None else None
             if ao is not None or bo is not None:
@@ -445,7 +508,7 @@ class RefWorld:
                 if f.kind == "time_delta" and a.tag and b.tag and a.tag.split("/")[0] != b.tag.split("/")[0]:
                     # a time delta cannot be converted to another time scale: the Time classes refuse
                     raise Expected("other:UnknownConversionError")
-                out[name] = RLeaf(name, f.kind, pair(a, b, f.kind, a.ndim, a.cols, factors), f.unit, f.level)
+                out[name] = RLeaf(name, f.kind, pair(a, b, f.kind, a.ndim, a.cols, factors, top=True), f.unit, f.level)
             for name, f in sf.items():
                 if name not in of and not self_empty:
                     out[name] = pad(f, front=False)
@@ -457,7 +520,8 @@ class RefWorld:
             if isinstance(f, RColl):
                 return RColl(f.name, f.level, {k: pad(v, front) for k, v in f.fields.items()})
             o = f.obj
-            new = pair(None, o, o.kind, o.ndim, o.cols, None) if front else pair(o, None, o.kind, o.ndim, o.cols, None)
+            new = pair(None, o, o.kind, o.ndim, o.cols, None, top=True) if front else \
+                pair(o, None, o.kind, o.ndim, o.cols, None, top=True)
             return RLeaf(f.name, f.kind, new, f.unit, f.level)
 
         if n == 0 and m == 0:
@@ -778,6 +842,18 @@ def judge(ctx, op, concrete, status, out, exp_status, exp_out, rw, rf):
                     f"{lab} raised {type(rw.last_exc).__name__}: {rw.last_exc} where the table model has a result", case)
         return
     d = diff_world(real_struct(rw), rf.struct(), op.get("r") if op["op"] == "diff" else op.get("d"))
+    if d is not None and getattr(rf, "shared_one_sided", False) and rf.code_variant is not None:
+        # the listed finding and nothing else?  Then the real world equals the reference in which the second name of the
+        # shared array is served from the memo.  (The history ends here, the variant is not used again.)
+        rf.ds[op["d"]] = rf.code_variant
+        d2 = diff_world(real_struct(rw), rf.struct(), op.get("d"))
+        if d2 is None:
+            which = "merge" if op["op"] == "merge" else "extend"
+            _violate(ctx, f"{which}:shared-array-one-name-missing",
+                     f"after {lab}: {d[2]} (one array under two field names, one name missing in the other dataset: the "
+                     f"field is served from the memo of the other name instead of being padded / extended on its own)", case)
+            return
+        d = d2
     if d is not None:
         _violate(ctx, f"{lab}:{d[0]}@{d[1]}", f"after {lab}: {d[2]}", case)
         return
